@@ -676,8 +676,13 @@ def upvar_in_closure_terms(prog, cbody, name):
     v = env[name]
     mapping = {}
     for n, pv in env.items():
-        if n != name and isinstance(pv, tuple) and pv[0] not in ("int", "bool", "char", "str", "float", "unit"):
-            mapping[pv] = ("upvar", n)
+        if n != name and not n.endswith("#state") and isinstance(pv, tuple) \
+                and pv[0] not in ("int", "bool", "char", "str", "float", "unit"):
+            parts = n.split("__")
+            ut = ("upvar", parts[0])
+            for fld in parts[1:]:
+                ut = ("field", ut, fld)
+            mapping[pv] = ut
     v2 = subst(v, mapping)
     # a capture of a whole struct (e.g. `self`) whose field is used
     return v2
@@ -705,6 +710,20 @@ def closure_env(prog, cbody):
                             env[nn + "#state"] = prog.simp(val, parent)
                             val = o
                     env[nn] = prog.simp(val, parent)
+                # disjoint field captures `a__f` whose value is `V.f`: add the synthetic base capture a = V
+                for nn in list(env):
+                    if "__" in nn and not nn.endswith("#state"):
+                        parts = nn.split("__")
+                        v = env[nn]
+                        okb = True
+                        for fld in reversed(parts[1:]):
+                            if v[0] == "field" and v[2] == fld:
+                                v = v[1]
+                            else:
+                                okb = False
+                                break
+                        if okb:
+                            env.setdefault(parts[0], v)
                 return parent, env
     return parent, None
 
@@ -1394,13 +1413,14 @@ def _falsified(atom, pol, writes):
 
 
 def _lin(t):
-    """t as (base term, integer offset)."""
-    if t[0] == "int":
-        return (None, t[1])
-    if t[0] == "bin" and t[1] == "Add" and t[3][0] == "int":
-        b, k = _lin(t[2])
-        return (b, k + t[3][1])
-    return (t, 0)
+    """t as (base polynomial or None, integer offset), via the polynomial normal form."""
+    from ..poly import poly as _poly, Poly
+    p = _poly(t)
+    k = p.const_value()
+    base = p - Poly.const(k)
+    if not base.m:
+        return (None, k)
+    return (base, k)
 
 
 def _eval_cmp(op, a, b):
@@ -1425,5 +1445,9 @@ def _eval_cmp(op, a, b):
     return None
 
 
-def _nonneg(t):
-    return t[0] == "call" and t[1] in LEN_FUNS
+def _nonneg(base):
+    """A polynomial whose monomials are positive multiples of products of lengths."""
+    return all(v > 0 and all(isinstance(a, tuple) and a[0] == "call" and a[1] in LEN_FUNS for a in mon)
+               for mon, v in base.m.items())
+
+
